@@ -98,6 +98,35 @@ claim("C05",
       "`if mask.any()` guards analysed as taken (component array of a full shell).",
       "DESIGN.md 2.4, 2.6, 3 (C05)")
 
+claim("C06",
+      "abstract interpretation in a Leibniz term algebra (formal sums of G(p,q)) + path/normal-form rule for the threshold",
+      "density.py is interpreted in a formal term algebra: orbital-level plumbing (P.dot(B(q))*B(p), sums over the orbital axis, the "
+      "Hessian's full/tensordot/einsum/swapaxes/triu pipeline with labelled axes) yields for each routine a formal sum of "
+      "G(p,q) = d1^p d2^q gamma atoms, compared with its definition: density G(0,0); reduced-density-matrix derivative G(p,q); "
+      "gradient R(e_k) as (points,3); Laplacian sum_k R(2e_k); Hessian R(e_a+e_b), symmetric, trace = Laplacian; posdef KED 1/2 sum_k "
+      "G(e_k,e_k); general KED = posdef + alpha LAP with the alpha != 0 guard at a root of its coefficient; evaluate_deriv_density(L) "
+      "= Leibniz expansion for all 125 order triples with components 0..4 (decides the l_x shortcut and its factor 1/2), orders "
+      "above 2 routed to the general back-end for BOTH order vectors. The two threshold checks raise exactly when min<0 and "
+      "|min|>threshold (compared over all sign/order cases) and otherwise return clip(min=0) of the checked array (scaled by 1/2 for "
+      "the KED); transform/deriv_type are forwarded at all internal call sites. 'To rounding error' and non-negativity for PSD "
+      "matrices are numerical and not decided; orders bounded at 4 per axis for the Leibniz rule.",
+      "Trusted: evaluate_basis/evaluate_deriv_basis return orbital values/derivatives with axes (orbitals, points) (C05); "
+      "G(p,q)=G(q,p) for symmetric P; sympy.",
+      "DESIGN.md 2.5, 2.6, 3 (C06)")
+
+claim("C15",
+      "abstract interpretation in a Leibniz term algebra over Q[alpha,beta] with a guard-root rule",
+      "The three functions of stress_tensor.py are interpreted in the formal algebra generated by G(p,q) with alpha, beta symbolic "
+      "(loops over np.identity(3) unrolled as constants). The extracted sigma_ij equals the documented -alpha G(e_i,e_j) + (1-alpha) "
+      "G(e_i+e_j,0) - 1/2 delta_ij beta LAP and is symmetric; the extracted force equals minus the divergence of the EXTRACTED sigma "
+      "and the extracted Hessian the Jacobian of the EXTRACTED force, derived with d_k G(p,q) = G(p+e_k,q)+G(p,q+e_k), so the "
+      "relations do not rest on a transcription of the expanded formulas; symmetric=True is (H+H^T)/2; every guarded update (14) has "
+      "a coefficient with a root at its special-cased parameter value, so skipping it is exact; output layouts (points,3[,3]); "
+      "one_density_matrix, basis, points, transform forwarded at all 14 call sites. Holds for all real alpha, beta. Nothing "
+      "numerical is claimed; that G, R, LAP are what the density routines return is C06.",
+      "Trusted: Leibniz laws of the term algebra; C06 for the primitives; sympy expand/simplify on polynomials in alpha, beta.",
+      "DESIGN.md 2.5, 3 (C15)")
+
 na("C10", "quantifies over the numerical values of the transformation matrices (harmonicity, orthonormality, phases for every l<=10); "
           "no clause is visible in the shape of the code - deciding it means computing the matrices, which is not static analysis")
 na("C17", "positive semi-definiteness and Schwarz inequalities are numerical consequences of exact integrals; no structural clause exists")
